@@ -7,7 +7,7 @@ import json, os, subprocess, sys, re, time
 V = "/verif"; R = "/repo"
 # mutant -> list of (property, tier, --only regex)
 T = {
- "C01-m1": [("C01", "quick", r"m4rmfull[45]-16x3x54-k1")],
+ "C01-m1": [("C01", "quick", r"m4rm[AB][45]-(16x70x54|17x33x70)-k1$")],
  "C01-m2": [("C01", "quick", r"naive0-(2x5x70|2x70x70|3x70x64)-c1$")],
  "C02-m1": [("C02", "quick", r"gapword-alg[23]"), ("C17", "quick", r"pivot-o-4x(130|200)-sr[01]-b0")],
  "C02-m2": [("C02", "quick", r"pluq-8x198-p3-f0|hybrid-8x198-p3-f0")],
@@ -15,7 +15,7 @@ T = {
  "C03-m2": [("C03", "quick", r"ztail")],
  "C04-m1": [("C04", "quick", r"right2-n(3|8|5)-m(65|70|130)")],
  "C04-m2": [("C04", "quick", r"russ1-n130-w70-p5|russ1-n130-w70-p[01]")],
- "C05-m1": [("C02", "quick", r"kbar(21|18|14|10|7)-k4")],
+ "C05-m1": [("C02", "thorough", r"kbarB21-k4")],
  "C05-m2": [("C05", "quick", r"invwrap-n(3|8)-b0")],
  "C06-m1": [("C06", "quick", r"solve[01]-(3x5|2x3|4x8)-p5")],
  "C06-m2": [("C06", "quick", r"solve[01]-(3x3|2x3|3x5|5x3)-p2")],
@@ -30,7 +30,7 @@ T = {
  "C10-m3": [("C10", "quick", r"fresh-"), ("C14", "quick", r"defsmall")],
  "C11-m1": [("C11", "quick", r"submatrix(64|128)-off")],
  "C11-m2": [("C11", "thorough", r"sse-")],
- "C12-m1": [("C02", "quick", r"kbar(18|14|10)-k4"), ("C12", "quick", r"kbar")],
+ "C12-m1": [("C02", "thorough", r"kbarB18-k4")],
  "C12-m2": [("C01", "quick", r"naive1-tinyL3-35x5x20"), ("C12", "quick", r"naive1")],
  "C13-m1": [("C09", "quick", r"pright[01]-3x40")],
  "C13-m2": [("C13", "quick", r"ptri-3x6|ptri-")],
@@ -62,6 +62,8 @@ def main():
     for mid in ids:
         d = os.path.join(V, "seeded", mid)
         patch = os.path.join(d, "patch.diff")
+        if os.path.exists(os.path.join(d, "patch_rebased.diff")):   # the original no longer applies after a fix: commit
+            patch = os.path.join(d, "patch_rebased.diff")
         if not os.path.exists(patch):
             print(mid, "no patch"); continue
         a = sh("git -C %s apply %s" % (R, patch))
